@@ -245,6 +245,24 @@ func (d SArr) Process() (string, error) {
 	return fSArr(d.R.tag, vsS(d.Values)), nil
 }
 
+// Div panics as a function of its input values: an integer division by a zero-valued
+// B (a run-time panic inside Process(), which the caller of the read recovers from,
+// as the HTTP handlers do). The execution is recorded only when Process() completes.
+type Div struct {
+	A nodes.NodeOutput[int]
+	B nodes.NodeOutput[int]
+	R *rec
+}
+
+func (d Div) Process() (int, error) {
+	a, b := vI(d.A), vI(d.B)
+	q := a / b
+	d.R.hit()
+	return fDiv(d.R.tag, a, b, q), nil
+}
+
+func fDiv(tag int, a, b, q int) int { return q*131 + (a%b)*7 + tag }
+
 // SArr2 has two array inputs.
 type SArr2 struct {
 	Values []nodes.NodeOutput[string]
@@ -498,6 +516,7 @@ const (
 	kFsFmt
 	kMFmt
 	kSArr2
+	kDiv
 )
 
 var kinds = []kind{
@@ -522,10 +541,11 @@ var kinds = []kind{
 	kFAtan: {name: "FAtan", out: tS, named: []inSpec{{"A", tF}, {"B", tF}}},
 	kFsFmt: {name: "FsFmt", out: tS, named: []inSpec{{"In", tFs}}},
 	kMFmt:  {name: "MFmt", out: tS, named: []inSpec{{"In", tM}}},
-	kSArr2: {name: "SArr2", out: tS, arr: &inSpec{"Values", tS}}, // plus a second array input "More" (phase large-fan-in only)
+	kDiv:   {name: "Div", out: tI, named: []inSpec{{"A", tI}, {"B", tI}}}, // panics (integer divide by zero) when B reads 0
+	kSArr2: {name: "SArr2", out: tS, arr: &inSpec{"Values", tS}},          // plus a second array input "More" (phase large-fan-in only)
 }
 
-var eagerKinds = []int{kU1, kS2, kS3, kSArr, kSMix, kI2, kIArr, kSLen, kIFmt, kChkI, kChkS, kChkI, kChkS}
+var eagerKinds = []int{kDiv, kU1, kS2, kS3, kSArr, kSMix, kI2, kIArr, kSLen, kIFmt, kChkI, kChkS, kChkI, kChkS}
 
 func (k kind) String() string { return k.name }
 
